@@ -188,6 +188,26 @@ def run(prop, seed, tier):
             cases += 1
             if verdict != 'ok':
                 fail('valid-rejected', text, 'valid multi-file schema: %s %s' % (verdict, detail))
+        # paths that are no regular files (a directory, a FIFO nobody writes to) as input and as patch file
+        os.makedirs(sc.path('adir.prophy'))
+        fifo = sc.path('afifo.prophy')
+        try:
+            os.mkfifo(fifo)
+        except (OSError, AttributeError):
+            fifo = None
+        good = sc.write('good_for_paths.prophy', PROPHY_BASE)
+        goodx = sc.write('good_for_paths.xml', ISAR_BASE)
+        for bad in [sc.path('adir.prophy')] + ([fifo] if fifo else []):
+            for args in ([bad, '--python_out', out, '--quiet'], [good, bad, '--python_out', out, '--quiet'],
+                         ['--isar', goodx, '--patch', bad, '--python_out', out, '--quiet']):
+                verdict, detail = run_one(args, limit=5.0)
+                cases += 1
+                if verdict == 'hang':
+                    fail('hang', ' '.join(args), 'prophyc did not terminate within 5 s on a path that is no regular file (%s)' % os.path.basename(bad))
+                elif verdict == 'escape':
+                    fail('escape', ' '.join(args), 'internal exception escaped: %s' % detail)
+                elif verdict == 'other':
+                    others[detail.split(':')[0]] = others.get(detail.split(':')[0], 0) + 1
         for idx, (kind, text, fname, extra) in enumerate(jobs):
             ext = 'xml' if kind == 'isar' else 'prophy'
             name = fname or ('f%d.%s' % (idx, ext))
